@@ -4,6 +4,7 @@ Differential monitor on DateTime()/Time().convert and .unconvert against the
 integer-arithmetic reference (vf.oracles.ref_types).
 """
 import datetime
+import re
 
 from vf.oracles import ref_types as R
 
@@ -28,7 +29,7 @@ EXHAUSTIVE = {"quick": "all 1561 whole-minute offsets x all spellings (read) and
 MIN_COUNTERS = {"quick": {"read_ok": 20000, "reject_checked": 3000, "write_checked": 6000, "offsets_read": 1561},
                 "thorough": {"read_ok": 400000, "reject_checked": 60000, "write_checked": 100000, "offsets_read": 1561}}
 
-NAMES = [None, "EST", "UTC", "GMT", "X", "A B", "-03", "+0530", "30", "Zoné", "EST5EDT", "a.b"]
+NAMES = [None, "EST", "UTC", "GMT", "X", "A B", "-03", "+0530", "30", "Zoné", "EST5EDT", "a.b", ""]  # "" = a zone that has no name to give
 _EPOCH = datetime.datetime(1970, 1, 1, tzinfo=datetime.timezone.utc)
 _US = datetime.timedelta(microseconds=1)
 
@@ -245,6 +246,17 @@ def corruptions(text, kind):
     for i in range(len(text)):
         if text[i].isdigit() and "[" not in text[:i]:
             out.append((text[:i] + "a" + text[i + 1:], "letter"))
+    # one character more than the notation has: a line break or blank at either end (a '$' anchor lets a final line break through)
+    out += [(text + "\n", "length-trailing-newline"), (text + "\r\n", "length-trailing-crlf"), ("\n" + text, "length-leading-newline"),
+            (text + " ", "length-trailing-blank"), (text + "\x00", "length-trailing-nul")]
+    # a digit that is not an ASCII digit (what \d and int() take for one), in every numeric field incl. the offset minutes
+    m = re.search(r"\[[+-]?[0-9]+\.([0-9]{2})", text)
+    spots = [i for i in range(len(text)) if text[i].isdigit() and "[" not in text[:i]][::3]
+    if m:
+        spots += [m.start(1), m.start(1) + 1]
+    for i in spots:
+        for base in (0x0660, 0xFF10):
+            out.append((text[:i] + chr(base + int(text[i])) + text[i + 1:], "non-ascii-digit"))
     return out
 
 
